@@ -30,6 +30,9 @@ type verifSettle struct {
 	entered   int
 	meet      chan struct{}
 	rendezvous bool
+	meetFirst bool
+	lookups   int
+	meet1     chan struct{}
 }
 
 func (s *verifSettle) Pay(context.Context, boson.Address, *big.Int) error { s.mu.Lock(); s.pays++; s.mu.Unlock(); return nil }
@@ -48,7 +51,22 @@ func (s *verifSettle) TransferTraffic(boson.Address) (*big.Int, error) {
 	}
 	return v, nil
 }
-func (s *verifSettle) RetrieveTraffic(boson.Address) (*big.Int, error) { return big.NewInt(0), nil }
+func (s *verifSettle) RetrieveTraffic(boson.Address) (*big.Int, error) {
+	// first contact: with meetFirst set, the look-up of the start value waits (up to 300 ms) for a
+	// second look-up for the same peer - which can only arrive if the table lock is not held
+	s.mu.Lock()
+	s.lookups++
+	mf := s.meetFirst
+	if mf && s.lookups == 2 { close(s.meet1) }
+	s.mu.Unlock()
+	if mf {
+		select {
+		case <-s.meet1:
+		case <-time.After(300 * time.Millisecond):
+		}
+	}
+	return big.NewInt(0), nil
+}
 func (s *verifSettle) PutRetrieveTraffic(boson.Address, *big.Int) error { return nil }
 func (s *verifSettle) PutTransferTraffic(_ boson.Address, t *big.Int) error {
 	s.mu.Lock(); s.served = new(big.Int).Add(s.served, t); s.puts++; s.mu.Unlock(); return nil
@@ -141,6 +159,21 @@ func TestVerifReplay(t *testing.T) {
 			go func() { defer wg.Done(); for i := 0; i < 300; i++ { _ = a.NotifyPayment(peer, big.NewInt(1)) } }()
 		}
 		wg.Wait()
+	}
+	// ---- (4) two first contacts of one peer at the same time: both credits must land in one record
+	{
+		st := &verifSettle{served: big.NewInt(0), available: big.NewInt(1 << 40), meetFirst: true, meet1: make(chan struct{})}
+		a := NewAccounting(big.NewInt(1 << 40), big.NewInt(1 << 40), lg, mock.NewStateStore(), st)
+		var wg sync.WaitGroup
+		for _, c := range []uint64{6000, 4000} {
+			c := c
+			wg.Add(1)
+			go func() { defer wg.Done(); _ = a.Credit(context.Background(), peer, c) }()
+		}
+		wg.Wait()
+		if got := verifUnpaid(a, peer); got.Cmp(big.NewInt(10000)) != 0 {
+			t.Logf("REPLAY-CONFIRMED two concurrent first-contact credits of 6000 and 4000 for one peer: the unpaid balance is %v (the start value was looked up %d times: two records were created and one credit was lost)", got, st.lookups); return
+		}
 	}
 	t.Logf("not reproduced")
 }
